@@ -991,11 +991,19 @@ class Gen:
                         and p["k"] == "PatTuple" and len(kids(p, "elem")) == 2):
                     S = T(kid(kid(itx, "receiver"), "receiver"))
                     i_pat, x_pat = [T(e) for e in kids(p, "elem")]
-                    ed.replace(p["s"], p["e"], i_pat, ("rule", "R1"))
-                    ed.replace(itx["s"], itx["e"], f"0..{S}.len()", ("rule", "R1"))
-                    for t, o in pieces:
-                        ed.insert(b["s"], t, o)
-                    ed.insert(b["s"] + 1, f" let {x_pat} = &{S}[{i_pat}];", ("rule", "R1"))
+                    if any(x["k"] == "Continue" for x in walk(b)):
+                        # Verus for-loops do not support `continue`: a `while` whose counter is advanced FIRST, so `continue` is safe
+                        ed.replace(n["s"], b["s"], f"let mut __n{idx}: usize = 0;\n        while __n{idx} < {S}.len()", ("rule", "R1"))
+                        for t, o in pieces:
+                            ed.insert(b["s"], t, o)
+                        ed.insert(b["s"] + 1, f" let {i_pat} = __n{idx}; __n{idx} += 1; let {x_pat} = &{S}[{i_pat}];", ("rule", "R1"))
+                        loops[idx] = (n, "for")
+                    else:
+                        ed.replace(p["s"], p["e"], i_pat, ("rule", "R1"))
+                        ed.replace(itx["s"], itx["e"], f"0..{S}.len()", ("rule", "R1"))
+                        for t, o in pieces:
+                            ed.insert(b["s"], t, o)
+                        ed.insert(b["s"] + 1, f" let {x_pat} = &{S}[{i_pat}];", ("rule", "R1"))
                     self.fired("R1")
                 elif itx["k"] == "MethodCall" and p["k"] == "PatTuple" and len(kids(p, "elem")) == 2 and (
                         (itx["a"]["method"] == "enumerate" and kid(itx, "receiver")["k"] == "MethodCall" and kid(itx, "receiver")["a"]["method"] == "chars")
@@ -1266,11 +1274,13 @@ class Gen:
         for n in walk(body):
             if n["k"] == "MethodCall" and n["a"]["method"] in ("starts_with", "ends_with", "strip_prefix", "strip_suffix", "contains") \
                     and len(kids(n, "arg")) == 1 and (kids(n, "arg")[0]["k"] == "Lit"
-                        or (kids(n, "arg")[0]["k"] == "Path" and kids(n, "arg")[0]["a"]["path"] in it.get("strvars", []))):
+                        or (kids(n, "arg")[0]["k"] == "Path" and kids(n, "arg")[0]["a"]["path"] in it.get("strvars", []))
+                        or (kids(n, "arg")[0]["k"] == "Reference" and kid(kids(n, "arg")[0], "expr")["k"] == "Path"
+                            and kid(kids(n, "arg")[0], "expr")["a"]["path"] in it.get("strvars", []))):
                 if any(a0 <= n["s"] and n["e"] <= b0 for a0, b0 in dead):
                     continue
                 lit = kids(n, "arg")[0]
-                if lit["k"] == "Path":
+                if lit["k"] in ("Path", "Reference"):
                     kind = "str"
                 else:
                     kind = "char" if lit["a"]["lit"].startswith("'") else ("str" if lit["a"]["lit"].startswith('"') else None)
@@ -1363,6 +1373,32 @@ class Gen:
                 ed.replace(n["s"], X["s"], "__join_newline(&", ("rule", "R38"))
                 ed.replace(X["e"], n["e"], ")", ("rule", "R38"))
                 self.fired("R38")
+
+        # R39: `..Default::default()` in a struct literal of type T  ->  `..__derived_default_T()` (prelude shim: derived Default)
+        for n in walk(body):
+            if n["k"] == "Struct":
+                rest = kid(n, "rest")
+                if rest is not None and rest["k"] == "Call" and norm(rest["a"]["func"]) == "Default::default":
+                    ty = n["a"]["path"]
+                    if ty == "Self":
+                        ty = it["name"].split("::")[0]
+                    ed.replace(rest["s"], rest["e"], f"__derived_default_{ty}()", ("rule", "R39"))
+                    self.fired("R39")
+        # R40: `S.lines().collect::<Vec<_>>()` -> __lines_vec(S);  `" ".repeat(N)` -> __spaces(N)
+        for n in walk(body):
+            if n["k"] == "MethodCall" and n["a"]["method"] == "collect" and kid(n, "receiver")["k"] == "MethodCall" \
+                    and kid(n, "receiver")["a"]["method"] == "lines" and not kids(kid(n, "receiver"), "arg"):
+                X = kid(kid(n, "receiver"), "receiver")
+                ed.replace(n["s"], X["s"], "__lines_vec(", ("rule", "R40"))
+                ed.replace(X["e"], n["e"], ")", ("rule", "R40"))
+                n["_handled"] = True
+                self.fired("R40")
+            elif n["k"] == "MethodCall" and n["a"]["method"] == "repeat" and kid(n, "receiver")["k"] == "Lit" \
+                    and kid(n, "receiver")["a"]["lit"] == '" "' and len(kids(n, "arg")) == 1:
+                A = kids(n, "arg")[0]
+                ed.replace(n["s"], A["s"], "__spaces(", ("rule", "R40"))
+                ed.replace(A["e"], n["e"], ")", ("rule", "R40"))
+                self.fired("R40")
 
         # R15: X.clone().or_else(|| Y.clone())  ->  __clone_or_else(&X, &Y)   (X, Y verbatim)
         # R14: V.extend(E)                       ->  __vec_extend(&mut V, E)
@@ -1541,7 +1577,7 @@ class Gen:
                     if any(a0 <= n["s"] and n["e"] <= b0 for a0, b0 in dead):
                         hit += 1  # consumed by another rule that re-applies the call map itself
                         continue
-                    ed.insert(n["s"], func + "(", ("rule", "R11"))
+                    ed.insert(n["s"], (func[:-1] + "(&") if func.endswith("&") else (func + "("), ("rule", "R11"))
                     if nargs == 0:
                         ed.replace(rc["e"], n["e"], ")", ("rule", "R11"))
                     else:
